@@ -100,8 +100,8 @@ Step ==
        [] e.ev = "return" ->
             IF ph # "exited" \/ cf.api # "public" THEN Fail("return-out-of-order")
             ELSE IF cf.fn = "exp" /\ ~ExpReqRaiseIff("returned", ex.converged) THEN Fail("req:not-converged=>raises")
-            ELSE IF cf.fn = "exp" /\ ~ExpReqReturnedAccurate("returned", e.accurate) THEN Fail("req:returned=>accurate")
             ELSE IF AtomClause(e) # "ok" THEN Fail(AtomClause(e))
+            ELSE IF cf.fn = "exp" /\ ~ExpReqReturnedAccurate("returned", e.accurate) THEN Fail("req:returned=>accurate")
             ELSE IF ~drifted /\ Wrap(st).outcome # "returned" THEN Drift("mech:wrapper-returned-where-the-model-raises", "done", ex)
             ELSE /\ ph' = "done" /\ bad' = bad /\ UNCHANGED <<st, cf, pend, ex, drifted, nonconv>>
        [] e.ev = "raise" ->
